@@ -303,6 +303,34 @@ impl Check for C20
 			"class S1 is expected to hit the recorded finding (structures are rebuilt with '#' markers); S0 continues the search behind it".into(),
 		]
 	}
+	fn judge_bytes(&self, bytes: &[u8]) -> Option<CaseOut>
+	{
+		let mut out = CaseOut::default();
+		if let Ok(src) = std::str::from_utf8(bytes)
+		{
+			// builtin calls are outside the property (print!, format!, ...)
+			if !src.contains('!') || !penne::alpha::lexer::lex(src, "m.pn").iter().any(|t| matches!(&t.result, Ok(penne::alpha::lexer::Token::Builtin(_))))
+			{
+				judge(src, "any text", &mut out, false);
+			}
+		}
+		Some(out)
+	}
+	fn fuzz_specs(&self, tier: Tier) -> Vec<FuzzSpec>
+	{
+		if tier == Tier::Quick
+		{
+			return Vec::new();
+		}
+		vec![FuzzSpec {
+			target: "fuzz_roundtrip",
+			runs_per_job: 200_000,
+			jobs: 14,
+			max_len: 2048,
+			seeds: crate::c15::fuzz_seed_corpus(2048, 150),
+			dictionary: crate::c15::fuzz_dictionary(),
+		}]
+	}
 	fn streams(&self) -> Vec<Box<dyn Stream>>
 	{
 		vec![
